@@ -10,10 +10,13 @@ package main
 // the module), the set of call sites is not known and nothing is concluded.
 
 import (
+	"fmt"
+	"go/types"
 	"strings"
 	"sync"
 
 	"golang.org/x/tools/go/ssa"
+	"golang.org/x/tools/go/ssa/ssautil"
 )
 
 // genSite: a call of a function - by name, or of a value that can only be this function (or one of
@@ -279,6 +282,17 @@ func (w *World) callSitesAll(fn *ssa.Function) (sites []genSite, complete bool) 
 		if p := s.Parent(); p != nil && strings.HasPrefix(p.Synthetic, "bound method wrapper") {
 			continue
 		}
+		// (the pointer-receiver wrapper of a value method can only run when a value of the type, or a pointer to
+		// one, was put into an interface; for a type that never is, it is dead code)
+		if p := s.Parent(); p != nil && strings.HasPrefix(p.Synthetic, "wrapper for") && p.Signature.Recv() != nil {
+			rt := p.Signature.Recv().Type()
+			if pt, isPtr := rt.(*types.Pointer); isPtr {
+				rt = pt.Elem()
+			}
+			if nt, isNamed := rt.(*types.Named); isNamed && !w.boxedInModule(nt) {
+				continue
+			}
+		}
 		sites = append(sites, genSite{ins: s, args: s.Common().Args})
 	}
 	ff := w.fnFlow()
@@ -342,4 +356,43 @@ func (w *World) calleesOfValue(v ssa.Value, depth int) []*ssa.Function {
 		return out
 	}
 	return nil
+}
+
+// boxedInModule: a value of the named type (or a pointer to one) is converted to an interface somewhere in the module.
+func (w *World) boxedInModule(nt *types.Named) bool {
+	key := fmt.Sprintf("boxed/%p", nt)
+	w.memoMu.Lock()
+	if w.postMemo == nil {
+		w.postMemo = map[string]interface{}{}
+	}
+	v, have := w.postMemo[key]
+	w.memoMu.Unlock()
+	if have {
+		return v.(bool)
+	}
+	boxed := false
+	for fn := range ssautil.AllFunctions(w.SSA()) {
+		if !inModule(fn) {
+			continue
+		}
+		for _, b := range fn.Blocks {
+			for _, ins := range b.Instrs {
+				mi, ok := ins.(*ssa.MakeInterface)
+				if !ok {
+					continue
+				}
+				t := mi.X.Type()
+				if pt, isPtr := t.(*types.Pointer); isPtr {
+					t = pt.Elem()
+				}
+				if types.Identical(t, nt) {
+					boxed = true
+				}
+			}
+		}
+	}
+	w.memoMu.Lock()
+	w.postMemo[key] = boxed
+	w.memoMu.Unlock()
+	return boxed
 }
